@@ -375,6 +375,29 @@ class Evaluator:
             if isinstance(v, Node):
                 return True
             raise Undecided(f"is_element of {v!r}")
+        if path in ("iter::any", "iter::all") and len(args) == 2:
+            # `[a, b].into_iter().flatten().any(p)`: the elements of a literal array (those that are there, through `flatten`), each
+            # tried with the predicate (which is written over ("elem", <the iterated value>))
+            src = args[0]
+            cur, flat = src, False
+            for _ in range(6):
+                if isinstance(cur, tuple) and cur and cur[0] == "call" and len(cur[2]) == 1 and str(cur[1]).rsplit("::", 1)[-1] in ("into_iter", "iter", "flatten", "copied", "cloned"):
+                    flat = flat or str(cur[1]).rsplit("::", 1)[-1] == "flatten"
+                    cur = cur[2][0]
+                else:
+                    break
+            if isinstance(cur, tuple) and cur and cur[0] == "tuple":
+                vals = [self.ev(x) for x in cur[1]]
+                if flat:
+                    vals = [v[1] if isinstance(v, tuple) and v and v[0] == "some" else v for v in vals if v is not NONE]
+                outs = []
+                for v in vals:
+                    b2 = dict(self.b)
+                    b2[("elem", src)] = v
+                    sub = Evaluator(b2, opaque=self.opaque)
+                    outs.append(sub._bool(sub.ev(args[1])))
+                return any(outs) if path == "iter::any" else all(outs)
+            raise Undecided(f"call {path}")
         if short == "is_some_and":
             v = self.ev(args[0])
             if v is NONE:
